@@ -223,6 +223,17 @@ def run_t(shard, tier, acc):
         if ta != tb:
             diff = [k for k in set(ta) | set(tb) if ta.get(k) != tb.get(k)]
             acc.fail(case, 'two trainings of the same list differ in %r' % diff[:4], 'nondeterministic')
+        if idx % 7 == 0:
+            # re-training into a rule directory that already holds another ruleset must leave exactly the new ruleset
+            other = ['Zebra99!', 'q1w2e3r4', 'x' * 9, '2001-1999', 'mr.t', 'abc@def.org', '77 77']
+            P.train(wd, other, rule='re', **opts)
+            ok3, base3, _, _ = P.train(wd, lines, rule='re', keep_existing=True, **opts)
+            acc.evals += 1
+            if ok3 is True:
+                tc = P.tree_bytes(base3)
+                if tc != ta:
+                    diff = sorted(k for k in set(tc) | set(ta) if tc.get(k) != ta.get(k))
+                    acc.fail(case, 're-training over an existing rule directory differs from a fresh training in %r' % diff[:5], 'retrain-stale')
         if idx % 61 == si:
             acc.sample({'training_list': lines[:10], 'opts': opts, 'files_checked': len(ta)}, cap=1)
     tree.rmtree(wd)
